@@ -17,13 +17,13 @@ func init() {
 		Level: "exploration",
 		Rule: "cases: first a sample of the repository's own manifest directories (3 repetitions x all outputs + the binary), then one generated resource set per case (NetworkPolicy worlds with many shared selectors, ANP/BANP worlds, Ingress/Route worlds, a large profile with up to 14 workloads and 10 policies) written in V layout variants (canonical file; documents shuffled into one file; one file per document with random names; random nested grouping; NetworkPolicy rules and peers permuted) and analysed R times per variant in fresh analyzers, for list txt/json/csv/md/dot x exposure off/on and diff txt/csv/md/dot against a second world; a slice is also run through the binary (fresh process, fresh hash seed); " +
 			"plus a light stream of many more resource sets (list txt/json, exposure off/on, two layouts, three fresh analyses each); oracle: byte equality of every output with the first one of its kind; the number of distinct internal iteration orders actually seen (order of the returned []Peer slice) is measured per input; " +
-			"non-trivial = at least 3 workload peers, a non-empty report, and more than one distinct iteration order observed; distinct = world hash",
+			"non-trivial = at least 3 workload peers and a non-empty report (the number of inputs for which more than one internal iteration order was actually observed is reported as an event, not demanded: an implementation that sorts its peers has only one); distinct = world hash",
 		Assumptions:       []string{"values inside one selector and ports inside one rule are not permuted (the statement names documents, files, rules and peers)", "each semantic selector has one spelling per world except in the committed witness of finding C08-selector-spelling"},
 		NumCases:          func(tier string, _ int64) int { return tierN(tier, 76+1500, 470+30000) },
 		Run:               runC08,
 		MinNonTrivial:     25,
 		MinEffectiveShare: 0.5,
-		RequiredEvents: map[string]int64{"outputs_compared": 5000, "bytes_compared": 1000000, "inputs_with_several_iteration_orders": 25, "exposure_outputs_compared": 1000,
+		RequiredEvents: map[string]int64{"outputs_compared": 5000, "bytes_compared": 1000000, "exposure_outputs_compared": 1000,
 			"diff_outputs_compared": 500, "binary_outputs_compared": 20, "variant_rules_permuted": 30, "variant_perdoc": 30, "light_inputs": 1000},
 	})
 }
@@ -245,7 +245,7 @@ func compareRuns(c *run.Ctx, w *world.World, variants []c08Variant, R int, dirB 
 		r.Ev("inputs_with_3plus_peers_but_one_order_seen", 1)
 	}
 	r.Effective = nonEmpty
-	r.NonTrivial = nonEmpty && nw >= 3 && len(orders) > 1
+	r.NonTrivial = nonEmpty && nw >= 3
 	if c.Idx%13 == 0 || len(r.Violations) > 0 {
 		keys := []string{}
 		for k := range first {
@@ -339,7 +339,7 @@ func runC08Fixture(c *run.Ctx, k int) {
 		r.Ev("inputs_with_several_iteration_orders", 1)
 	}
 	r.Effective = nonEmpty
-	r.NonTrivial = nonEmpty && len(orders) > 1
+	r.NonTrivial = nonEmpty
 }
 
 // runC08Light: one generated resource set, list txt/json with and without exposure, three fresh analyses each, written once in
@@ -411,5 +411,5 @@ func runC08Light(c *run.Ctx) {
 		r.Ev("inputs_with_several_iteration_orders", 1)
 	}
 	r.Effective = nonEmpty
-	r.NonTrivial = nonEmpty && len(w.Workloads) >= 3 && len(orders) > 1
+	r.NonTrivial = nonEmpty && len(w.Workloads) >= 3
 }
